@@ -136,10 +136,15 @@ Definition erc20_mint (t a x : Z) : prog := [Add (CT t) x; Add (CE t a) x].
 Definition erc20_burn (t a x : Z) : prog := [Sub (CE t a) x; Add (CT t) (- x)].
 Definition erc20_transfer (t from to x : Z) : prog := [Sub (CE t from) x; Add (CE t to) x].
 
+(* bank BlockedAddr (app.BlockedAccountAddrs): every module account except gov — here the chain modules, erc20, ibc
+   transfer and evm module accounts; the WFX / token contracts and the precompile address are not blocked.
+   MintingEnabled refuses a blocked receiver; SendCoinsFromModuleToAccount refuses a blocked recipient. *)
+Definition blocked (a : Z) : bool := chain_ok a || (a =? A_ERC20) || (a =? A_IBC) || (a =? A_EVM).
+
 (* ---------- x/erc20 conversions (msg_server.go) ---------- *)
 (* ConvertCoin: MintingEnabled; ConvertCoinNativeCoin / ConvertCoinNativeERC20 *)
 Definition convert_coin (t : token) (sender receiver x : Z) : prog :=
-  ChkEnabled (t_id t) ::
+  ChkEnabled (t_id t) :: Chk (negb (blocked receiver)) ::
   match t_kind t with
   | KFX => send sender A_ERC20 (base_of t) x ++ erc20_mint (t_id t) receiver x ++ send A_ERC20 A_WFX (base_of t) x
   | KMod => send sender A_ERC20 (base_of t) x ++ erc20_mint (t_id t) receiver x
@@ -149,7 +154,7 @@ Definition convert_coin (t : token) (sender receiver x : Z) : prog :=
 
 (* ConvertERC20: ConvertERC20NativeCoin / ConvertERC20NativeToken *)
 Definition convert_erc20 (t : token) (sender receiver x : Z) : prog :=
-  ChkEnabled (t_id t) ::
+  ChkEnabled (t_id t) :: Chk (negb (blocked receiver)) ::
   match t_kind t with
   | KFX => erc20_burn (t_id t) sender x ++ send A_WFX A_ERC20 (base_of t) x ++ send A_ERC20 receiver (base_of t) x
   | KMod => erc20_burn (t_id t) sender x ++ send A_ERC20 receiver (base_of t) x
@@ -200,7 +205,8 @@ Definition msg_convert_denom (t : token) (sender receiver src target x : Z) : pr
   convert_denom_to_target t sender src target x ++
   Chk (negb (converted_rep t src target =? src)) ::
   (if sender =? receiver then []
-   else send sender A_ERC20 (denom_rep t (converted_rep t src target)) x ++
+   else Chk (negb (blocked receiver)) ::
+        send sender A_ERC20 (denom_rep t (converted_rep t src target)) x ++
         send A_ERC20 receiver (denom_rep t (converted_rep t src target)) x).
 
 (* IsOriginOrConvertedDenom on a bridge denom of token t: FX -> true, module-owned alias -> false,
@@ -430,11 +436,19 @@ Fixpoint last_batch (c t : Z) (l : list batch) (best : option batch) : option ba
     else last_batch c t r best
   end.
 
-(* BuildOutgoingTxBatch with maxElements above the pool size, baseFee 0, minimumFee 1: takes every
-   unbatched tx of the token; `timeout` is the value the real code computed (read back by the harness) *)
+(* the pool is keyed (contract, fee, id) and scanned in reverse: highest fee first, then highest id *)
+Definition tx_before (p q : ptx) : bool := (p_fee q <? p_fee p) || ((p_fee p =? p_fee q) && (p_id q <? p_id p)).
+Fixpoint tx_insert (p : ptx) (l : list ptx) : list ptx :=
+  match l with [] => [p] | q :: r => if tx_before p q then p :: l else q :: tx_insert p r end.
+Fixpoint tx_sort (l : list ptx) : list ptx := match l with [] => [] | p :: r => tx_insert p (tx_sort r) end.
+Definition batch_size : nat := Z.to_nat 100.   (* types.OutgoingTxBatchSize *)
+
+(* BuildOutgoingTxBatch with baseFee 0, minimumFee 1: the (at most) 100 best-paying unbatched txs of the token go into
+   the batch, the others stay in the pool; `timeout` is the value the real code computed (read back by the harness) *)
 Definition request_batch (t : token) (c timeout : Z) : M := fun s =>
   let r := sr s in
-  let sel := filter (sel_tx c (t_id t)) (pool r) in
+  let sorted := tx_sort (filter (sel_tx c (t_id t)) (pool r)) in
+  let sel := firstn batch_size sorted in
   (guard (on_chain t c) ;;
    guard (match last_batch c (t_id t) (batches r) None with
           | Some b => negb (fees_of sel <? fees_of (b_txs b)) | None => true end) ;;
@@ -444,7 +458,7 @@ Definition request_batch (t : token) (c timeout : Z) : M := fun s =>
    updR (fun r => set_batchid (set1 c (get1 c (batchid r) + 1) (batchid r))
                   (set_batches ({| b_chain := c; b_nonce := get1 c (batchid r) + 1; b_tok := t_id t; b_txs := sel;
                                    b_timeout := timeout |} :: batches r)
-                  (set_pool (filter (fun p => negb (sel_tx c (t_id t) p)) (pool r)) r)))) s.
+                  (set_pool (skipn batch_size sorted ++ filter (fun p => negb (sel_tx c (t_id t) p)) (pool r)) r)))) s.
 
 Definition is_batch (c t n : Z) (b : batch) : bool := (b_chain b =? c) && (b_tok b =? t) && (b_nonce b =? n).
 Fixpoint find_batch (c t n : Z) (l : list batch) : option batch :=
